@@ -276,6 +276,29 @@ pub fn run(o: &Opts) -> Report {
             if p != root.join(r).unwrap() || p == other_root.join(r).unwrap() || p.root() != root {
                 bad = Some(("equality-wrong", "== is not (same instance, same string)".into()));
             }
+            // the same for DERIVED paths: roots obtained by root() and by climbing parent() to the
+            // top, and every ancestor on the way, on the two instances — equal strings, different
+            // instances, never equal; and equal to their twins on the own instance
+            {
+                let q = other_root.join(r).unwrap();
+                let (mut a, mut b) = (p.clone(), q.clone());
+                let mut steps = 0;
+                loop {
+                    if a == b || a.as_str() != b.as_str() || a.root() == b.root() || a.root() == other_root || b.root() == root || a.root() != root || b.root() != other_root {
+                        bad = Some(("equality-wrong-derived", format!("after {} parent() steps: paths of two different filesystem instances compare equal (or a root() differs from the instance's root)", steps)));
+                        break;
+                    }
+                    if a.is_root() {
+                        if a != root || b != other_root || a == other_root {
+                            bad = Some(("equality-wrong-derived", "a root reached by parent() is not == the instance's own root only".into()));
+                        }
+                        break;
+                    }
+                    a = a.parent();
+                    b = b.parent();
+                    steps += 1;
+                }
+            }
             if let Some((sig, what)) = bad {
                 rep.fail(Fail {
                     oracle: "prop".into(),
